@@ -214,7 +214,11 @@ carquet_status_t carquet_read_dictionary_page(
             /* Variable length - will be handled differently */
             break;
         default:
-            break;
+            /* BOOLEAN: a bit-packed dictionary is not implemented; refuse it rather
+             * than hand out values that were never decoded */
+            CARQUET_SET_ERROR(error, CARQUET_ERROR_NOT_IMPLEMENTED,
+                "Dictionary encoding is not supported for this physical type");
+            return CARQUET_ERROR_NOT_IMPLEMENTED;
     }
 
     reader->dictionary_count = header->num_values;
